@@ -109,7 +109,9 @@ typename dis_interval<Number>::list_intervals_t dis_interval<Number>::normalize(
   for (unsigned int i = 0; i < l.size(); ++i) {
     ikos::interval<Number> intv = l[i];
 
-    if (prev == intv) {
+    // prev is initialised to top as a sentinel: a genuine top interval
+    // must not be mistaken for a duplicate
+    if (!intv.is_top() && prev == intv) {
       CRAB_LOG("disint", crab::outs() << "-- Normalize: duplicate"
                                       << "\n");
       continue;
